@@ -254,6 +254,8 @@ def attach(owner, attr, monitor, pre=None, post=None, method=True, capture_stdou
         orig = raw
     label = "%s.%s" % (getattr(owner, "__name__", str(owner)).split(".")[-1], attr)
     optparams, optdomains = _option_params(orig, method and not is_static)
+    if post is None:  # a counter or tracer, not a judge: it has no option coverage to report
+        optparams, optdomains = [], {}
     for pname, dom in optdomains.items():
         REC.option_domains["%s(%s)" % (label, pname)] = dom
 
